@@ -77,4 +77,59 @@ theorem nodup_directives_go (seen : List (List Char)) (items : List Item) : (dir
         have := (mem_directives_go (g :: seen) rest g).1 hm
         exact this.1 List.mem_cons_self
 
+/-! ### where the directive stands -/
+
+/-- `included_files` after the loop has gone over `items` -/
+def seenAfter (seen : List (List Char)) : List Item → List (List Char)
+  | [] => seen
+  | it :: rest =>
+    match it.incfile with
+    | some f => if seen.contains f then seenAfter seen rest else seenAfter (f :: seen) rest
+    | none => seenAfter seen rest
+
+theorem go_append (seen : List (List Char)) (a b : List Item) :
+    go seen (a ++ b) = go seen a ++ go (seenAfter seen a) b := by
+  induction a generalizing seen with
+  | nil => rfl
+  | cons it rest ih =>
+    cases hi : it.incfile with
+    | none => simp only [List.cons_append, go, seenAfter, hi, ih seen]
+    | some f =>
+      by_cases hs : seen.contains f = true
+      · simp only [List.cons_append, go, seenAfter, hi, hs, if_true, ih seen]
+      · simp only [List.cons_append, go, seenAfter, hi, hs, Bool.false_eq_true, if_false, ih (f :: seen)]
+
+theorem not_mem_seenAfter (seen : List (List Char)) (a : List Item) (f : List Char) (hf : f ∉ seen)
+    (ha : ∀ x ∈ a, x.incfile ≠ some f) : f ∉ seenAfter seen a := by
+  induction a generalizing seen with
+  | nil => exact hf
+  | cons it rest ih =>
+    have hrest : ∀ x ∈ rest, x.incfile ≠ some f := fun x hx => ha x (List.mem_cons_of_mem _ hx)
+    cases hi : it.incfile with
+    | none => simp only [seenAfter, hi]; exact ih seen hf hrest
+    | some g =>
+      have hgf : f ≠ g := by
+        intro h; subst h
+        exact ha it List.mem_cons_self hi
+      simp only [seenAfter, hi]
+      split
+      · exact ih seen hf hrest
+      · refine ih (g :: seen) ?_ hrest
+        simp only [List.mem_cons, not_or]
+        exact ⟨hgf, hf⟩
+
+/-- the directive for a file stands exactly where the first element of that file stands in the writer's order: what
+    comes before it is what the elements before it produce, and the file is not named again behind it -/
+theorem directive_at_first_go (pre post : List Item) (it : Item) (f : List Char) (h : it.incfile = some f)
+    (hpre : ∀ x ∈ pre, x.incfile ≠ some f) :
+    ∃ tail, go [] (pre ++ it :: post) = go [] pre ++ Entry.directive f :: tail ∧ f ∉ directives tail := by
+  have hn : f ∉ seenAfter [] pre := not_mem_seenAfter [] pre f (by simp) hpre
+  have hc : (seenAfter [] pre).contains f = false := by
+    simpa using hn
+  refine ⟨go (f :: seenAfter [] pre) post, ?_, ?_⟩
+  · rw [go_append]
+    simp only [go, h, hc, Bool.false_eq_true, if_false]
+  · intro hm
+    exact ((mem_directives_go _ post f).1 hm).1 List.mem_cons_self
+
 end A2l.IncW
